@@ -406,7 +406,7 @@ def recipes(rnd, scale):
     rc += gen_muldiv(rnd, 500 * scale)
     rc += gen_unary(rnd, 150 * scale)
     rc += gen_seq(rnd, 110 * scale)
-    rc += gen_divmod(rnd, 290 * scale)
+    rc += gen_divmod(rnd, 260 * scale)
     rc += gen_trig(rnd, 60 * scale)
     return rc
 
